@@ -185,13 +185,11 @@ Fixpoint collect_elems {A} (step : A -> M tval) (l : list A) : M tvals :=
 Fixpoint tvals_of (l : list tval) : tvals :=
   match l with [] => TNil | v :: r => TCons v (tvals_of r) end.
 
-Section Walk.
-Variable ffmt : Z -> Z -> list Z.   (* strconv.AppendFloat(.., 'g', -1, bits) of a bit pattern: not modelled *)
-Variable c : cfg.
-Variable sc : schema.
+(* In the walk, [ffmt bits pattern] stands for strconv.AppendFloat(.., 'g', -1, bits) of a bit
+   pattern (not modelled: an argument), [c] is the cache variant and [sc] the schema. *)
 
 (* marshalEnum *)
-Definition shown_enum (id v : Z) : M tval :=
+Definition shown_enum (c : cfg) (sc : schema) (id v : Z) : M tval :=
   find c sc ;;
   match lookup (s_nodes sc) id with
   | None => fail ENotFound
@@ -225,7 +223,7 @@ Definition lift {A} (r : res A) : M A :=
   fun st => match r with Ok a => Ok (a, st) | Err e => Err e | OutOfFuel => OutOfFuel end.
 
 (* marshalStruct / marshalFieldValue / marshalList *)
-Fixpoint shown_struct (fuel : nat) (id : Z) (data : list Z) (ptrs : list rval) {struct fuel} : M tval :=
+Fixpoint shown_struct (ffmt : Z -> Z -> list Z) (c : cfg) (sc : schema) (fuel : nat) (id : Z) (data : list Z) (ptrs : list rval) {struct fuel} : M tval :=
   match fuel with
   | O => fun _ => OutOfFuel
   | S f =>
@@ -243,7 +241,7 @@ Fixpoint shown_struct (fuel : nat) (id : Z) (data : list Z) (ptrs : list rval) {
                 else
                   charge (f_ncost fd) ;;                  (* f.NameBytes() *)
                   match k with
-                  | FGroup gid => v <- shown_struct f gid data ptrs ;; ret (Some v)
+                  | FGroup gid => v <- shown_struct ffmt c sc f gid data ptrs ;; ret (Some v)
                   | FSlot off t dflt dptr tcost dvcost dpcost =>
                     charge tcost ;;                       (* f.Slot().Type() *)
                     charge dvcost ;;                      (* f.Slot().DefaultValue() *)
@@ -257,7 +255,7 @@ Fixpoint shown_struct (fuel : nat) (id : Z) (data : list Z) (ptrs : list rval) {
                            let p := ptr_at ptrs off in
                            p' <- (if is_null p then charge dpcost ;; ret dptr else ret p) ;;   (* dv.StructValue() *)
                            let (d, ps) := as_struct p' in
-                           shown_struct f sid d ps
+                           shown_struct ffmt c sc f sid d ps
                          | TData =>
                            let p := ptr_at ptrs off in
                            if is_null p then charge dpcost ;; ret (TvStr (data_bytes dptr))   (* dv.Data() *)
@@ -270,8 +268,8 @@ Fixpoint shown_struct (fuel : nat) (id : Z) (data : list Z) (ptrs : list rval) {
                            charge ecost ;;                (* typ.List().ElementType() *)
                            let p := ptr_at ptrs off in
                            p' <- (if is_null p then charge dpcost ;; ret dptr else ret p) ;;   (* dv.List() *)
-                           shown_list f e p'
-                         | TEnum eid => shown_enum eid (Z.lxor (get_le data (off * 2) 2) dflt)
+                           shown_list ffmt c sc f e p'
+                         | TEnum eid => shown_enum c sc eid (Z.lxor (get_le data (off * 2) 2) dflt)
                          | TInterface =>
                            ret (if is_null (ptr_at ptrs off) then TvIdent ident_null else TvMarker marker_cap)
                          | TAnyPointer => ret (TvMarker marker_any)
@@ -284,7 +282,7 @@ Fixpoint shown_struct (fuel : nat) (id : Z) (data : list Z) (ptrs : list rval) {
     | Some _ => fail ENotStruct
     end
   end
-with shown_list (fuel : nat) (e : ty) (l : rval) {struct fuel} : M tval :=
+with shown_list (ffmt : Z -> Z -> list Z) (c : cfg) (sc : schema) (fuel : nat) (e : ty) (l : rval) {struct fuel} : M tval :=
   match fuel with
   | O => fun _ => OutOfFuel
   | S f =>
@@ -298,16 +296,16 @@ with shown_list (fuel : nat) (e : ty) (l : rval) {struct fuel} : M tval :=
     | TText => ps <- lift (ptr_elems l) ;; ret (TvList (tvals_of (map (fun p => TvStr (text_bytes p)) ps)))
     | TStruct sid =>
       ps <- lift (ptr_elems l) ;;
-      vs <- collect_elems (fun p => let (d, pp) := as_struct p in shown_struct f sid d pp) ps ;;
+      vs <- collect_elems (fun p => let (d, pp) := as_struct p in shown_struct ffmt c sc f sid d pp) ps ;;
       ret (TvList vs)
     | TList ecost ee =>
       charge ecost ;;                                     (* elem.List().ElementType() *)
       ps <- lift (ptr_elems l) ;;
-      vs <- collect_elems (fun p => shown_list f ee p) ps ;;
+      vs <- collect_elems (fun p => shown_list ffmt c sc f ee p) ps ;;
       ret (TvList vs)
     | TEnum eid =>
       xs <- lift (prim_elems 16 l) ;;
-      vs <- collect_elems (fun x => shown_enum eid x) xs ;;
+      vs <- collect_elems (fun x => shown_enum c sc eid x) xs ;;
       ret (TvList vs)
     | TInterface =>
       ps <- lift (ptr_elems l) ;;
@@ -316,7 +314,6 @@ with shown_list (fuel : nat) (e : ty) (l : rval) {struct fuel} : M tval :=
     end
   end.
 
-End Walk.
 
 (* ------------------------------------------------------------------ the bytes written *)
 
